@@ -300,7 +300,9 @@ def _validate_chunk(args):
             index.append((f, total + 1, len(lines)))
             total += len(lines)
             out.writelines(lines)
-    rc, output, wall = tlc(workdir, "Trace.tla", "Trace.cfg", workers=1, timeout=timeout, heap="4g")
+    # (conformance evaluates Chain!Apply on observed states: on modified code that can be arbitrarily expensive or not
+    # terminate - it gets a bounded time, then the property formulas alone are evaluated)
+    rc, output, wall = tlc(workdir, "Trace.tla", "Trace.cfg", workers=1, timeout=min(timeout, 900), heap="4g")
     conformance_aborted = False
     if rc != 0 and "CONSUMED" not in output:
         # evaluating Chain!Apply on an observed state crashed TLC (a state the specification has no meaning for, e.g. on
